@@ -34,7 +34,7 @@ def derive_part_lines(origin, req, impl):
 
 
 def run(seed, tier, replay=None):
-    n = 1500 if tier == "quick" else 40000
+    n = 1500 if tier == "quick" else 160000
     streams = [("p_filter", [seed, n])]
     if replay:
         rp = json.load(open(replay))
